@@ -74,3 +74,41 @@ Proof. eexists. eexists. split; vm_compute; reflexivity. Qed.
 Lemma ex_f04f_repaired : exists s os, mrun true blank ex_hist = Some (s, os) /\
   misc_calls (concat os) = [(2, 1, MDefault (VInt 9))] /\ s_clos s = [].
 Proof. eexists. eexists. split; vm_compute; [reflexivity|split; reflexivity]. Qed.
+
+(* ---- a disconnect that walks the LIVE list of pending callbacks while removing from it: Python's list iterator then
+        skips the element after each removed one, so the callbacks at positions 1, 3, ... stay registered *)
+Fixpoint keep_odd {A} (l : list A) : list A :=
+  match l with
+  | _ :: y :: r => y :: keep_odd r
+  | _ => []
+  end.
+
+Definition disconnect_alt (s : state) : state :=
+  mkSt [] None false None None [] (s_updated s) (keep_odd (s_clos s)) (d_store s) (d_stored s) [].
+
+Fixpoint mrun_alt (s : state) (hs : list (config * list event)) : option (state * list (list obs)) :=
+  match hs with
+  | [] => Some (s, [])
+  | (c, evs) :: r =>
+    match run c (connect c (disconnect_alt s)) evs with
+    | None => None
+    | Some (s1, o) => match mrun_alt s1 r with None => None | Some (s2, os) => Some (s2, o :: os) end
+    end
+  end.
+
+(* three default-value requests (names 0, 1, 2) are unanswered when the link drops; after the reconnect to the same table
+   name 1 is queried again: the abandoned callback 2 of session 1 is invoked as well *)
+Definition ex_t3 : config :=
+  mkCfg [mkElem 10 0 0 TU16 false true; mkElem 11 1 0 TU16 false true; mkElem 12 2 1 TU16 false true] [] [] []
+        [(10, [5; 0]); (11, [1; 1]); (12, [9; 0])] [(10, [7; 0]); (11, [3; 4]); (12, [8; 0])] [] true.
+Definition ex_hist3 : list (config * list event) :=
+  [(ex_t3, [EvMisc 6 0 (Some 1); EvMisc 6 1 (Some 2); EvMisc 6 2 (Some 3)]);
+   (ex_t3, [EvMisc 6 1 (Some 4); EvUGet; EvUSend; EvDeliver])].
+
+Lemma ex_alt : exists s os, mrun_alt blank ex_hist3 = Some (s, os) /\
+  misc_calls (concat os) = [(2, 1, MDefault (VInt 1027)); (4, 1, MDefault (VInt 1027))].
+Proof. eexists. eexists. split; vm_compute; reflexivity. Qed.
+
+Lemma ex_alt_repaired : exists s os, mrun true blank ex_hist3 = Some (s, os) /\
+  misc_calls (concat os) = [(4, 1, MDefault (VInt 1027))].
+Proof. eexists. eexists. split; vm_compute; reflexivity. Qed.
